@@ -384,7 +384,7 @@ def make_case(rnd, tag):
             rules[0] = (n0, ('seq', (x0, ('opt', ('named', 'w', ('call', 'bsub'))))))
     # element names that collide with dict attributes
     if rnd.random() < 0.3:
-        new = rnd.choice(['items', 'keys', 'get', 'values'])
+        new = rnd.choice(['items', 'keys', 'get', 'values', 'items', 'keys', 'get', 'values', 'text', 'line', 'parent', 'path'])
 
         def ren(e):
             if e[0] in ('named', 'namedl') and e[1] == 'm':
@@ -496,4 +496,13 @@ def _f_c07_b(case, detail):
     return False
 
 
-EXCLUSIONS = {'F-C07-b': _f_c07_b}
+NODE_MEMBERS = ('text', 'line', 'parent', 'path', 'children')
+
+
+def _f_c07_e(case, detail):
+    """a named element whose name is a read-only property or a method of Node"""
+    rules = [(n, tup(x)) for n, x in case['rules']]
+    return any(e[0] in ('named', 'namedl') and e[1] in NODE_MEMBERS for _, x in rules for e in walk(x))
+
+
+EXCLUSIONS = {'F-C07-b': _f_c07_b, 'F-C07-e': _f_c07_e}
